@@ -1,7 +1,7 @@
 (** C10 — A writer holds one shape type; a rejected write changes nothing.
     Statements only; proofs in Proofs/WriterInv.v. *)
 From SF Require Import Model.Bytes Model.ShapeType Model.Shapes Model.Res Model.Encode Model.Writer.
-From SF Require Import Proofs.WriterInv.
+From SF Require Import Proofs.WriterInv Proofs.BulkTail.
 Open Scope Z_scope.
 
 (** In every reachable state of a writer that has accepted a first shape, a
@@ -33,3 +33,18 @@ Example C10_example :
     = [Ok tt; Err (EMismatch TPoint TPointM); Ok tt]
   /\ remove_rejected [] [CWrite p; CWrite q; CWrite p] = [CWrite p; CWrite p].
 Proof. split; vm_compute; reflexivity. Qed.
+
+(** ** The bulk helper `write_shapes(self, tail)` (Proofs/BulkTail.v) is the
+    single calls `write_shape` on the shapes of the tail, in order, up to and
+    including the first that fails: it returns that call's result, and leaves
+    the writer and the destinations as those calls leave them.  A tail of
+    another type than the file's is therefore refused at its first shape by
+    [C10_reject], with nothing written. *)
+Theorem C10_bulk_is_calls : forall (ss : list shape) (st : wstate) (w : world),
+  let '(rs, st1, w1) := run_calls (map CWrite (firstn (bulk_offered ss st w) ss)) st w in
+  write_shapes_calls ss st w = (last rs (Ok tt), st1, w1) /\
+  length rs = bulk_offered ss st w /\
+  Forall (fun r => r = Ok tt) (removelast rs) /\
+  ((bulk_offered ss st w < length ss)%nat -> last rs (Ok tt) <> Ok tt).
+Proof. exact bulk_is_calls. Qed.
+Print Assumptions C10_bulk_is_calls.
